@@ -423,6 +423,7 @@ extern void    check_perm(const char *what, int n, const int *perm);
    one event per state change, emitted only when a test harness installs a sink. */
 extern void slu_vhook(const char *event, const char *fmt, ...);
 extern void slu_vhook_mem(const char *event, const GlobalLU_t *Glu, const char *fmt, ...);
+extern const char *slu_v_tok(double value); /* exact JSON token of a floating-point value */
 #define SLU_VHOOK(...)     slu_vhook(__VA_ARGS__)
 #define SLU_VHOOK_MEM(...) slu_vhook_mem(__VA_ARGS__)
 #else
